@@ -97,6 +97,43 @@ def ev(e: ast.AST, env: Dict[str, Any]) -> Any:
     raise Unknown(type(e).__name__)
 
 
+def pruning_roles(ctx: Ctx, f: FunctionInfo) -> Dict[str, str]:
+    """Names of the role variables of _file_may_match, found by data flow: min/max = values fetched with .get(<col id>)
+    from the maps derived from data_file.lower_bounds / upper_bounds; expr = loop variable over the expressions parameter;
+    colid = the key used for both fetches."""
+    roles: Dict[str, str] = {}
+    maps: Dict[str, str] = {}
+    for n in ast.walk(f.node):
+        if isinstance(n, ast.Assign) and len(n.targets) == 1 and isinstance(n.targets[0], ast.Name):
+            t = norm_text(n.value)
+            if ".lower_bounds" in t:
+                maps[n.targets[0].id] = "min"
+            elif ".upper_bounds" in t:
+                maps[n.targets[0].id] = "max"
+    for n in ast.walk(f.node):
+        if isinstance(n, ast.Assign) and len(n.targets) == 1 and isinstance(n.targets[0], ast.Name) and isinstance(n.value, ast.Call) \
+                and isinstance(n.value.func, ast.Attribute) and n.value.func.attr == "get" and isinstance(n.value.func.value, ast.Name) \
+                and n.value.func.value.id in maps and n.value.args:
+            roles[maps[n.value.func.value.id]] = n.targets[0].id
+            roles.setdefault("colid", norm_text(n.value.args[0]))
+            roles[maps[n.value.func.value.id] + "_map"] = n.value.func.value.id
+    fetches = [(n.targets[0].id, n.value.func.value.id) for n in ast.walk(f.node)
+               if isinstance(n, ast.Assign) and len(n.targets) == 1 and isinstance(n.targets[0], ast.Name) and isinstance(n.value, ast.Call)
+               and isinstance(n.value.func, ast.Attribute) and n.value.func.attr == "get" and isinstance(n.value.func.value, ast.Name)
+               and n.value.func.value.id in maps]
+    if len(fetches) >= 2 and not {"min", "max"} <= set(roles):
+        # both bounds fetched from the SAME map: keep positional roles so that R5 can report the wrong source
+        roles["min"], roles["min_map"] = fetches[0]
+        roles["max"], roles["max_map"] = fetches[1]
+    exprs_param = f.params[1].name if len(f.params) > 1 else "expressions"
+    for n in ast.walk(f.node):
+        if isinstance(n, ast.For) and isinstance(n.iter, ast.Name) and n.iter.id == exprs_param and isinstance(n.target, ast.Name):
+            roles["expr"] = n.target.id
+    if not {"min", "max", "expr", "colid"} <= set(roles):
+        raise AnalysisError(f"_file_may_match: role variables not found ({sorted(roles)})")
+    return roles
+
+
 def op_branches(ctx: Ctx, f: FunctionInfo) -> Dict[str, List[Tuple[ast.AST, Node, List[ast.AST]]]]:
     """{operator: [(skip condition AST, the `return False` node, enclosing guard conditions)]}"""
     g = ctx.cfg(f)
@@ -145,6 +182,8 @@ def r1r2(ctx: Ctx) -> None:
     ctx.rule("C13.R2", "unordered values: an operator that is true for an incomparable (NaN) row may only prune when the bounds' "
              "type excludes float", 1)
     f = ctx.fn("filters._file_may_match")
+    R = pruning_roles(ctx, f)
+    MIN, MAX, VAL = R["min"], R["max"], R["expr"] + ".value"
     branches = op_branches(ctx, f)
     if "?" in branches:
         for _c, r, _x in branches["?"]:
@@ -175,8 +214,8 @@ def r1r2(ctx: Ctx) -> None:
                     if mn > mx:
                         continue
                     for v in lits:
-                        env = {"file_min": mn, "file_max": mx, "expr.value": v, "__locals__": local_defs,
-                               "__types__": {"file_min": "int", "file_max": "int", "expr.value": "int"}}
+                        env = {MIN: mn, MAX: mx, VAL: v, "__locals__": local_defs,
+                               "__types__": {MIN: "int", MAX: "int", VAL: "int"}}
                         try:
                             skip = bool(ev(cond, env))
                         except Unknown as u:
@@ -206,8 +245,8 @@ def r1r2(ctx: Ctx) -> None:
                 for mn in dom_vals:
                     for mx in range(mn, 4):
                         for v in (lits if op not in ("IN", "NOT_IN") else lits[:6]):
-                            env = {"file_min": float(mn), "file_max": float(mx), "expr.value": v, "__locals__": local_defs,
-                                   "__types__": {"file_min": "float", "file_max": "float", "expr.value": "float"}}
+                            env = {MIN: float(mn), MAX: float(mx), VAL: v, "__locals__": local_defs,
+                                   "__types__": {MIN: "float", MAX: "float", VAL: "float"}}
                             try:
                                 if ev(cond, env):
                                     can_skip_float = True
@@ -235,7 +274,8 @@ def r3(ctx: Ctx) -> None:
         bad = [r for r in ex["return"] if isinstance(r.ast.value, ast.Constant) and r.ast.value.value is False]  # type: ignore[union-attr]
         ctx.ob("C13.R3", f, "handler never answers 'skip'", hn, not bad and not ex["raise"],
                "a comparison that cannot be decided keeps the file", text=",".join(handler_classes(hn.ast)))  # type: ignore[arg-type]
-    for pat in ("col_id is None", "file_min is None", "file_max is None"):
+    R = pruning_roles(ctx, f)
+    for pat in (f"{R['colid']} is None", f"{R['min']} is None", f"{R['max']} is None"):
         brs = [b for b in g.nodes if b.kind == "branch" and norm_text(b.ast) == pat]
         ok = bool(brs)
         for b in brs:
@@ -279,7 +319,7 @@ def r4(ctx: Ctx) -> None:
     read: Dict[str, str] = {}
     for n in ast.walk(dec.node):
         if isinstance(n, ast.If) and isinstance(n.test, ast.Compare) and isinstance(n.test.comparators[0], ast.Constant) \
-                and isinstance(n.test.left, ast.Name) and n.test.left.id == "tag":
+                and isinstance(n.test.comparators[0].value, str) and isinstance(n.test.left, ast.Name) and isinstance(n.test.ops[0], ast.Eq):
             tag = str(n.test.comparators[0].value)
             rets = [x for s in n.body for x in ast.walk(s) if isinstance(x, ast.Return) and x.value is not None]
             if rets:
@@ -323,7 +363,8 @@ def r4(ctx: Ctx) -> None:
     g = ctx.cfg(dec)
     legacy = [n for n in g.calls() if any(t.name == "_infer_value_legacy" for t in ctx.eff.callees(dec, n))]
     dom = ctx.dom(dec, ALL)
-    tag_b = [b for b in g.nodes if b.kind == "branch" and "tag ==" in b.text]
+    tag_b = [b for b in g.nodes if b.kind == "branch" and isinstance(b.ast, ast.Compare) and isinstance(b.ast.ops[0], ast.Eq)
+             and isinstance(b.ast.comparators[0], ast.Constant) and b.ast.comparators[0].value in read]
     ok = bool(legacy) and all(not any(l.id in reachable_from(g, b.id, NORMAL) for b in tag_b) for l in legacy)
     ctx.ob("C13.R4", dec, "the untagged fallback is unreachable for tagged input", legacy[0] if legacy else None, ok,
            "a tagged payload is never re-interpreted by the lossy legacy inference (audit #34)")
@@ -350,7 +391,9 @@ def r5r6(ctx: Ctx) -> None:
         vo = sl.origins(s.ast.value, s.id)  # type: ignore[union-attr]
         k_id = any(isinstance(c, ast.Call) and c.args and isinstance(c.args[0], ast.Constant) and c.args[0].value == "id" for c in ko["calls"])
         v_name = any(isinstance(c, ast.Call) and c.args and isinstance(c.args[0], ast.Constant) and c.args[0].value == "name" for c in vo["calls"])
-        same = bool({n for n in ko["names"]} & {n for n in vo["names"]} & {"field_dict"})
+        loopvars = {l.ast.target.id for l in g.nodes if l.kind == "loop" and isinstance(l.ast, ast.For) and isinstance(l.ast.target, ast.Name)
+                    and norm_text(l.ast.iter).endswith(".fields")}
+        same = bool({n for n in ko["names"]} & {n for n in vo["names"]} & loopvars)
         ctx.ob("C13.R5", cb, "bound stored under field_dict['id'] for the column field_dict['name']", s, k_id and v_name and same,
                "key and column come from the same schema field")
     # the stored bound is the UNTRANSFORMED pc.min / pc.max of the column
@@ -376,20 +419,30 @@ def r5r6(ctx: Ctx) -> None:
                f"value chain `{why}`: any truncation / rounding / sentinel makes the stored interval narrower than the data and "
                "prunes files that hold matching rows")
     pr = ctx.fn("filters.prune_files_by_bounds")
-    maps = [n for n in ast.walk(pr.node) if isinstance(n, ast.Assign) and isinstance(n.targets[0], ast.Subscript)
-            and "col_name_to_id" in norm_text(n.targets[0].value)]
-    ok = bool(maps) and all("field_name" in norm_text(m.targets[0].slice) and "field_id" in norm_text(m.value) for m in maps)
+    prg = ctx.cfg(pr)
+    psl = ctx.slicer(pr)
+    maps = [n for n in prg.nodes if n.kind == "stmt" and isinstance(n.ast, ast.Assign) and isinstance(n.ast.targets[0], ast.Subscript)]
+    ok = bool(maps)
+    for m in maps:
+        ko = psl.origins(m.ast.targets[0].slice, m.id)  # type: ignore[union-attr]
+        vo = psl.origins(m.ast.value, m.id)  # type: ignore[union-attr]
+        k_name = any(isinstance(c, ast.Call) and c.args and isinstance(c.args[0], ast.Constant) and c.args[0].value == "name" for c in ko["calls"])
+        v_id = any(isinstance(c, ast.Call) and c.args and isinstance(c.args[0], ast.Constant) and c.args[0].value == "id" for c in vo["calls"])
+        ok = ok and k_name and v_id
     ctx.ob("C13.R5", pr, "lookup map is name -> id of the same field", None, ok, "col_name_to_id[field_name] = field_id")
     fm = ctx.fn("filters._file_may_match")
+    R = pruning_roles(ctx, fm)
     gets = [n for n in ast.walk(fm.node) if isinstance(n, ast.Call) and isinstance(n.func, ast.Attribute) and n.func.attr == "get"
-            and "bounds" in norm_text(n.func.value)]
-    ok = len(gets) >= 2 and all(norm_text(x.args[0]) == "col_id" for x in gets)
+            and norm_text(n.func.value) in (R.get("min_map"), R.get("max_map"))]
+    ok = len(gets) >= 2 and len({norm_text(x.args[0]) for x in gets}) == 1
     ctx.ob("C13.R5", fm, "both bounds are read under the filter column's id", None, ok,
            "lower_bounds.get(col_id), upper_bounds.get(col_id)")
     lo = [x for x in gets if "lower" in norm_text(x.func.value)]
     asg = {norm_text(n.targets[0]): norm_text(n.value) for n in ast.walk(fm.node) if isinstance(n, ast.Assign) and len(n.targets) == 1}
-    ok = "lower_bounds" in asg.get("file_min", "") and "upper_bounds" in asg.get("file_max", "")
-    ctx.ob("C13.R5", fm, "file_min comes from lower_bounds, file_max from upper_bounds", None, ok, f"{ {k: v for k, v in asg.items() if k.startswith('file_m')} }")
+    ok = R.get("min_map", "?") in asg.get(R["min"], "") and R.get("max_map", "?") in asg.get(R["max"], "") and \
+        ".lower_bounds" in asg.get(R.get("min_map", ""), "") and ".upper_bounds" in asg.get(R.get("max_map", ""), "")
+    ctx.ob("C13.R5", fm, "file_min comes from lower_bounds, file_max from upper_bounds", None, ok,
+           f"min <- {asg.get(R['min'])} ; max <- {asg.get(R['max'])}")
     wd = ctx.fn("data_operations.DataFileManager.write_data_file")
     wg = ctx.cfg(wd)
     wsl = ctx.slicer(wd)
@@ -399,9 +452,13 @@ def r5r6(ctx: Ctx) -> None:
     ok = False
     if cbc and writer and wr:
         to = wsl.origins(cbc[0].ast.args[0], cbc[0].id)  # type: ignore[union-attr]
-        from_records = "records" in to["names"] and "arrow_schema" in to["names"]
-        w_schema = "arrow_schema" in names_in(writer[0].ast)
-        w_records = "records" in wsl.origins(wr[0].ast.args[0], wr[0].id)["names"]  # type: ignore[union-attr]
+        rec_p = wd.params[2].name if len(wd.params) > 2 else "records"
+        conv = [n for n in wg.calls() if n.callee and n.callee.name == "pyarrow.Table.from_pylist" and n.ast in to["calls"]]
+        sch = kwarg(conv[0].ast, "schema") if conv else None
+        sch_name = sch.id if isinstance(sch, ast.Name) else "?"
+        from_records = rec_p in to["names"] and bool(conv)
+        w_schema = sch_name in names_in(writer[0].ast)
+        w_records = rec_p in wsl.origins(wr[0].ast.args[0], wr[0].id)["names"]  # type: ignore[union-attr]
         same_iceberg = norm_text(cbc[0].ast.args[1]) == "iceberg_schema"  # type: ignore[union-attr]
         ok = from_records and w_schema and w_records and same_iceberg
     ctx.ob("C13.R6", wd, "bounds table and written batches share records and arrow_schema", cbc[0] if cbc else None, ok,
